@@ -646,6 +646,22 @@ def rule_replace(ctx, rep, rid):
     okh = any(a[0] == "eq" and any(x[0] == "load" and x[1].endswith(RH) for x in (a[1], a[2])) for a in leaves)
     okm = any(a[0] == "ne" and a[2] == ("c", 0) and a[1][0] == "icall" for a in leaves)
     oki = any(a[0] == "ne" and a[2] == ("c", 0) and a[1][0] == "load" and a[1][1].endswith("cds_lfht_iter.node") for a in leaves)
+    # what is validated: the node being *replaced* must match the key and carry the new node's hash (the new node matching its own key says nothing)
+    for a in leaves:
+        if a[0] == "ne" and a[2] == ("c", 0) and a[1][0] == "icall":
+            ic = w.insts[a[1][-1]] if isinstance(a[1][-1], int) else None
+            if ic is not None and ic.op == "icall" and ic.args:
+                a0 = ir.expr(w, ic.args[0], 4)
+                a1 = ir.expr(w, ic.args[1], 4) if len(ic.args) > 1 else None
+                rep.check(a0[0] == "load" and a0[1].endswith("cds_lfht_iter.node") and a1 == ("arg", 4), rid, "replace.match-old-node", "match(old_iter->node, key) decides -EINVAL",
+                          "the key check is match(%s, %s): the node the iterator points at is not compared with the key - a replace through an iterator on another key of the same hash is accepted "
+                          "and removes that other key's node" % (ir.expr_str(a0), ir.expr_str(a1) if a1 else "?"), [ic.where()])
+        if a[0] == "eq" and any(x[0] == "load" and x[1].endswith(RH) for x in (a[1], a[2])):
+            sides = (a[1], a[2])
+            is_old = lambda x: x[0] == "load" and x[1].endswith(RH) and "cds_lfht_iter.node" in x[1]
+            is_new = lambda x: (x[0] == "load" and x[1].endswith(RH) and x[1].startswith("arg5.")) or (x[0] == "call" and x[1].startswith("bit_reverse_ulong"))
+            okp = (is_old(sides[0]) and is_new(sides[1])) or (is_old(sides[1]) and is_new(sides[0]))
+            rep.check(okp, rid, "replace.hash-old-vs-new", "the old node's reverse hash is compared with the new node's (the reversed hash argument)", "the hash check compares %s" % [ir.expr_str(x) for x in sides], [c2[0].where()])
     rep.check(okh and okm and oki, rid, "replace.args", "cds_lfht_replace validates iterator, hash and match before replacing",
               "cds_lfht_replace lacks validation: %s" % ", ".join(n for n, v in (("old node non-NULL", oki), ("hash equality", okh), ("match", okm)) if not v), [c2[0].where()])
 
